@@ -64,6 +64,23 @@ def check(run):
                 p.append(dict(op="Peek", arg=0))
             p += [dict(op=rem, arg=0), dict(op="Peek", arg=0)]
             plans.append(p)
+    # "an empty container stays empty and usable", at every fill count (block / chunk boundaries): fill to n, drain to empty, probe the
+    # empty container with either call, then use it again; per-n fresh containers and one container that goes through all n in a row
+    top = 140 if run.quick() else 600
+    for kind in ("queue", "stack"):
+        ins, rem = ("Enqueue", "Dequeue") if kind == "queue" else ("Push", "Pop")
+        def cycle(n, v0, first):
+            c = [dict(op=ins, arg=v0 + i) for i in range(n)] + [dict(op=rem, arg=0)] * n
+            probes = [dict(op=rem, arg=0), dict(op="Peek", arg=0)]
+            c += probes if first else probes[::-1]
+            return c + [dict(op=ins, arg=v0 + n), dict(op="Peek", arg=0), dict(op=ins, arg=v0 + n + 1), dict(op=rem, arg=0), dict(op=rem, arg=0), dict(op=rem, arg=0)]
+        chain = [dict(op="Reset", kind=kind)]
+        for n in range(1, top + 1):
+            if n <= 70 or n % 8 in (0, 1) or n % 10 == 0:
+                plans.append([dict(op="Reset", kind=kind)] + cycle(n, 1000, n % 2 == 0))
+            if n <= 40:
+                chain += cycle(n, 100 * n, n % 2 == 1)
+        plans.append(chain)
     segs = execute(run, plans)
     if len(segs) != len(plans):
         raise Inconclusive("driver returned %d segments for %d plans" % (len(segs), len(plans)))
@@ -72,7 +89,8 @@ def check(run):
     run.cov.update(tour=tours, conformance=conf, exhaustive=all(t["edges_covered"] == t["edges_total"] for t in tours),
                    distinct_nontrivial=distinct_count(segs, lambda s: len(s) > 2),
                    rule="segments = tour paths over the TLC state graph of Queue.tla (every edge once) plus seeded "
-                        "long interleavings; non-trivial = contains at least two calls; distinct by full recorded trace")
+                        "long interleavings, saw-tooth fills to 1100 / 5000, and fill-n / drain / probe-empty / reuse cycles for n up to 140 / 600; "
+                        "non-trivial = contains at least two calls; distinct by full recorded trace")
     run.cov["samples"] = [segs[0][:8], segs[-1][:8]]
     run.assumptions += ["element type int only", "pointer-level list behaviour is C06's model"]
     return finish(run, reexec=lambda rej: execute(run, [rej["plan"]])[0])
